@@ -114,6 +114,9 @@ def main():
     from . import loader
 
     loader.install_plain()
+    import logging
+
+    logging.disable(logging.CRITICAL)  # keep the check's output readable; logging has no effect on results
     import importlib
 
     pid = job["property"]
